@@ -155,6 +155,30 @@ def check_C05(sim):
     return None if abs(pay + fares - rec) < 1e-6 or True else f"payments {pay} != received {rec}"
 
 
+def freeze(x, depth=0):
+    """deep structural fingerprint of a value (containers -> canonical nested tuples)"""
+    import dataclasses
+    if depth > 12:
+        return "..."
+    if isinstance(x, (str, int, float, bool, type(None))):
+        return x
+    if isinstance(x, tuple) and hasattr(x, "_fields"):
+        return (type(x).__name__,) + tuple((f, freeze(getattr(x, f), depth + 1)) for f in x._fields)
+    if dataclasses.is_dataclass(x) and not isinstance(x, type):
+        return (type(x).__name__,) + tuple((f.name, freeze(getattr(x, f.name), depth + 1)) for f in dataclasses.fields(x))
+    if isinstance(x, (immutables.Map, dict)):
+        return ("map",) + tuple(sorted(((repr(k), freeze(v, depth + 1)) for k, v in x.items()), key=lambda kv: kv[0]))
+    if isinstance(x, (set, frozenset)):
+        return ("set",) + tuple(sorted(repr(freeze(e, depth + 1)) for e in x))
+    if isinstance(x, (tuple, list)):
+        return ("seq",) + tuple(freeze(e, depth + 1) for e in x)
+    return ("obj", type(x).__name__)
+
+
+def sim_fp(sim):
+    return freeze(sim._replace(road_network=None))
+
+
 ORACLES = {"C02": check_C02, "C07": check_C07, "C08": check_C08, "C17": check_C17, "C10": check_C10, "C09": check_C02,
            "C05": check_C05}
 
@@ -164,6 +188,7 @@ def scenario(pid, seed):
     sim, env = build(rnd)
     initial = {v.id: dict(v.energy) for v in sim.vehicles.values()}
     trace = []
+    saved = [(sim, sim_fp(sim))] if pid == "C16" else []
     for step in range(12):
         if rnd.random() < 0.75:
             ins = random_instruction(rnd, sim)
@@ -178,16 +203,126 @@ def scenario(pid, seed):
             sim = perform_vehicle_state_updates(sim, env)
             sim = ops.tick(sim)
             trace.append("update+tick")
-        msg = check_C04(sim, initial) if pid == "C04" else ORACLES[pid](sim)
+        if pid == "C16":
+            msg = None
+            for k_, (old, fp_) in enumerate(saved):
+                if sim_fp(old) != fp_:
+                    msg = f"the state saved after operation {k_} reads differently after operation {len(trace)}"
+                    break
+            saved.append((sim, sim_fp(sim)))
+        else:
+            msg = check_C04(sim, initial) if pid == "C04" else ORACLES[pid](sim)
         if msg:
             return msg, trace
     return None, trace
 
 
+def search_C06(seed):
+    """multi-link routes on the straight-line mock network, random step lengths: road covered <= what the link speeds
+    allow (one second of rounding per link), odometer = length driven, driven ++ remaining = the route, junction"""
+    from nrel.hive.model.roadnetwork.routetraversal import traverse
+    from nrel.hive.model.roadnetwork.linktraversal import LinkTraversal
+    from nrel.hive.model.roadnetwork.haversine_link_id_ops import geoids_to_link_id
+    rnd = random.Random(seed)
+    rn = mock_network()
+    ring = sorted(h3.k_ring(h3.h3_to_parent(somewhere(), 8), 3))
+    pts = [h3.h3_to_center_child(c, 15) for c in rnd.sample(ring, rnd.randint(2, 6))]
+    route = tuple(LinkTraversal.build(geoids_to_link_id(a, b), a, b, speed_kmph=40) for a, b in zip(pts, pts[1:]))
+    remaining = route
+    for step in range(40):
+        if not remaining:
+            break
+        dur = rnd.choice([1, 7, 20, 45, 60, 90])
+        err, t = traverse(remaining, dur, rn)
+        if err is not None or t is None:
+            return f"traverse failed: {err!r}"
+        dist = sum(l.distance_km for l in t.experienced_route)
+        allowed = max(l.speed_kmph for l in remaining) * (dur + len(t.experienced_route)) / 3600.0 + 0.002
+        if dist > allowed:
+            return f"step {step}: covered {dist:.4f} km in {dur} s but the link speeds allow at most {allowed:.4f} km (route of {len(route)} links)"
+        if abs(dist - t.traversal_distance_km) > 1e-9:
+            return f"step {step}: odometer delta {t.traversal_distance_km} != driven {dist}"
+        if t.experienced_route and t.remaining_route and t.experienced_route[-1].end != t.remaining_route[0].start:
+            return f"step {step}: driven part does not end where the remaining part starts"
+        if t.remaining_route and t.remaining_route[-1].end != route[-1].end:
+            return f"step {step}: destination changed"
+        if not t.experienced_route and dur >= 20:
+            return f"step {step}: no progress in {dur} s"
+        remaining = t.remaining_route
+    return None
+
+
+_OSM = {}
+
+
+def osm_net():
+    """a 4x4 two-way street grid (strongly connected) built in memory"""
+    if "rn" not in _OSM:
+        import networkx as nx
+        from nrel.hive.model.roadnetwork.osm.osm_roadnetwork import OSMRoadNetwork
+        lat0, lon0 = h3.h3_to_geo(somewhere())
+        g = nx.MultiDiGraph()
+        n = 4
+        for i in range(n):
+            for j in range(n):
+                g.add_node(i * n + j, y=lat0 + 0.002 * i, x=lon0 + 0.002 * j)
+        for i in range(n):
+            for j in range(n):
+                for di, dj in ((0, 1), (1, 0)):
+                    a, b = i + di, j + dj
+                    if a < n and b < n:
+                        g.add_edge(i * n + j, a * n + b, length=200.0)
+                        g.add_edge(a * n + b, i * n + j, length=200.0)
+        _OSM["rn"] = OSMRoadNetwork(g, 15, 40.0)
+        _OSM["box"] = (lat0, lon0, n)
+    return _OSM["rn"], _OSM["box"]
+
+
+def search_C13(seed):
+    rnd = random.Random(seed)
+    rn, (lat0, lon0, n) = osm_net()
+    def pos():
+        if rnd.random() < 0.5:      # a link end (a node cell) or an interior point
+            lk = rnd.choice(sorted(rn.link_helper.links.values(), key=lambda l: l.link_id))
+            g = rnd.choice([lk.start, lk.end])
+        else:
+            g = h3.geo_to_h3(lat0 + rnd.random() * 0.002 * (n - 1), lon0 + rnd.random() * 0.002 * (n - 1), 15)
+        return rn.position_from_geoid(g)
+    o, d = pos(), pos()
+    if o is None or d is None:
+        return "position_from_geoid returned None inside the network"
+    for p in (o, d):
+        lk = rn.link_from_link_id(p.link_id)
+        if lk is None or p.geoid not in h3.h3_line(lk.start, lk.end):
+            return f"snapped position {p} does not lie on the link it names"
+    r = rn.route(o, d)
+    if (len(r) == 0) != (o == d):
+        return f"route from {o} to {d} has {len(r)} links (origin == destination: {o == d})"
+    if r:
+        if r[0].start != o.geoid or r[-1].end != d.geoid:
+            return f"route from {o} to {d} starts at {r[0].start} / ends at {r[-1].end}"
+        for a, b in zip(r, r[1:]):
+            if a.end != b.start:
+                return f"route from {o} to {d}: links {a.link_id} and {b.link_id} do not join"
+        for l in r:
+            if rn.link_from_link_id(l.link_id) is None:
+                return f"route uses link {l.link_id} which is not in the network"
+    return None
+
+
 def main():
     pid, seed = sys.argv[1], int(sys.argv[2])
     n = int(sys.argv[3]) if len(sys.argv) > 3 else 150
-    if pid not in ORACLES and pid != "C04":
+    if pid in ("C06", "C13"):
+        for k in range(n):
+            msg = (search_C06 if pid == "C06" else search_C13)(seed * 100003 + k)
+            if msg:
+                print("traverse() over a random multi-link route, seed" if pid == "C06" else "route() on an in-memory 4x4 street grid, seed", seed * 100003 + k)
+                print("REPRODUCED", msg)
+                return 1
+        print("not reproduced")
+        return 0
+    if pid not in ORACLES and pid not in ("C04", "C16"):
         print("no native oracle for", pid)
         print("not reproduced")
         return 0
